@@ -20,20 +20,25 @@ def check(ctx):
     if m is None or nm is None:
         ctx.bad('C03.L', 'anchors', '', 'OrSWotSet::merge / NodeVersions::merge not found (fail closed)')
         return
-    n1 = lww.check_bodies(ctx, facts, 'C03.L', [m], 'merge')
-    ctx.floor('C03.L', 'survivor guards and joins in OrSWotSet::merge', n1, 5)
-    nb = lww.check_blind_overwrites(ctx, facts, 'C03.B', [m])
-    ctx.floor('C03.B', 'timestamp stores by insert in OrSWotSet::merge', nb, 4)
-    nd = lww.check_guarded_drops(ctx, facts, 'C03.D', [m])
-    ctx.floor('C03.D', 'timestamp removals in OrSWotSet::merge', nd, 3)
-    # M: every path through merge also merges the version stamps, after the entry log was replayed
-    vm = [b for b, t in m.calls() if cname(t) == 'datacake_crdt::orswot::NodeVersions::merge']
-    rets = m.return_blocks()
-    good = bool(vm) and m.must_pass([0], vm, rets)
-    ctx.ob('C03.M', 'merge|versions-merged-on-every-path', good, engine_site(m),
-           'every path through merge ends by merging the peer\'s version stamps' if good else
-           'merge can return without merging the peer\'s version stamps (early return / fast path): purge cut-offs and refusals then differ between '
-           'replicas that merged each other, and re-merging is not idempotent')
+    # SEM: the per-key transfer function of merge over the finite domain of order types (P-ORDER) equals the last-write-wins
+    # join with the observed-remove gates; it subsumes L / B / D / M for OrSWotSet::merge, which are evaluated only when
+    # the code uses a construct the abstract interpreter does not model.
+    import orswot_abs
+    if not orswot_abs.check_merge(ctx, facts, 'C03.SEM'):
+        n1 = lww.check_bodies(ctx, facts, 'C03.L', [m], 'merge')
+        ctx.floor('C03.L', 'survivor guards and joins in OrSWotSet::merge', n1, 5)
+        nb = lww.check_blind_overwrites(ctx, facts, 'C03.B', [m])
+        ctx.floor('C03.B', 'timestamp stores by insert in OrSWotSet::merge', nb, 4)
+        nd = lww.check_guarded_drops(ctx, facts, 'C03.D', [m])
+        ctx.floor('C03.D', 'timestamp removals in OrSWotSet::merge', nd, 3)
+        # M: every path through merge also merges the version stamps, after the entry log was replayed
+        vm = [b for b, t in m.calls() if cname(t) == 'datacake_crdt::orswot::NodeVersions::merge']
+        rets = m.return_blocks()
+        good = bool(vm) and m.must_pass([0], vm, rets)
+        ctx.ob('C03.M', 'merge|versions-merged-on-every-path', good, engine_site(m),
+               'every path through merge ends by merging the peer\'s version stamps' if good else
+               'merge can return without merging the peer\'s version stamps (early return / fast path): purge cut-offs and refusals then differ between '
+               'replicas that merged each other, and re-merging is not idempotent')
     # S: merging version stamps derives the purge cut-off only through the one cut-off computation
     import c08, gate
     pp = gate.gate_predicates(facts, facts.body('datacake_crdt::orswot::OrSWotSet::purge_old_deletes'))
